@@ -210,3 +210,56 @@ def doc_features(doc) -> int:
         elif d['d'] in ('enum', 'group', 'sticky', 'project'):
             n += 1
     return n
+
+
+PRODUCT_MODEL_CFG = '''CONSTANTS
+  SeedLo = %d
+  SeedHi = %d
+  WithProps = FALSE
+  WithComments = FALSE
+  Family = "%s"
+INIT Init
+NEXT Next
+INVARIANT ProductFaithful
+INVARIANT ProductRoundTrip
+INVARIANT EmitProductModel
+CHECK_DEADLOCK FALSE
+'''
+
+
+PRODUCT_BUDGET = {'quick': {'column': 160, 'index': 120, 'table': 80, 'ref': 240, 'enum': 54, 'misc': 80},
+                  'thorough': {'column': 6000, 'index': 1008, 'table': 576, 'ref': 5000, 'enum': 108, 'misc': 729}}
+
+
+def product_models(rep: core.Report, families=('column', 'index', 'table', 'ref', 'enum', 'misc'), scale: float = 1.0):
+    """a slice of every family (all of it where the budget allows), starting where VERIF_SEED says"""
+    out = []
+    complete = {}
+    for fam in families:
+        n = max(1, int(PRODUCT_BUDGET[core.tier()][fam] * scale))
+        ms, full = gen_product_models(fam, 1 + (core.seed() - 1) * n, n, rep)
+        complete[fam] = full
+        out += ms
+    rep.notes['product_families_complete'] = complete
+    return out
+
+
+def gen_product_models(family: str, lo: int, count: int, rep: core.Report):
+    """`count` elements of a per-element feature product, from position `lo` of the stride order (wrapping), with their models
+    (GenProductModel.tla) -> [(family:index, {'doc', 'model', 'reforder'})] -- the shape gen_models returns"""
+    size = FAMILY_SIZES[family]
+    count = min(count, size)
+    lo = (lo - 1) % size + 1
+    ranges = [(lo, min(size, lo + count - 1))]
+    if lo + count - 1 > size:
+        ranges.append((1, lo + count - 1 - size))
+    out = []
+    for a, b in ranges:
+        res = tlc.require_ok(tlc.run_sharded('MC_GenProductModel', lambda x, y: PRODUCT_MODEL_CFG % (x, y, family), a, b, timeout=3000),
+                             'MC_GenProductModel')
+        if res.violated:
+            raise core.Machinery('design-level property %s violated in MC_GenProductModel(%s)\n%s' % (res.violated, family, res.out[-3000:]))
+        rep.add_tlc('MC_GenProductModel %s %d..%d of %d' % (family, a, b, size), res)
+        out += [('%s:%d' % (family, p[1]), json.loads(p[2])) for p in res.prints if p and p[0] == 'DOC']
+    out.sort(key=lambda x: x[0])
+    return out, count >= size
